@@ -309,7 +309,7 @@ def part(task: Tuple[int, int, int, int], col: common.Collector) -> None:
 
 def run(tier: str, col: common.Collector) -> None:
     if tier == "quick":
-        per_worker, n_faulty, limit = 64, 10, 27
+        per_worker, n_faulty, limit = 160, 10, 27
     else:
         per_worker, n_faulty, limit = 1600, 12, 81
     nw = 16
